@@ -54,7 +54,7 @@ def ingest(pid, which, srcroot="/tmp/seed", base=None):
             shutil.copy(os.path.join(src, f), os.path.join(wt, target_dir, f))
             placed.append(os.path.join(target_dir, f))
         cmd = meta["demo_cmd"]
-        cmd = cmd.replace("/tmp/seed/wt-%s" % pid, wt).replace("/tmp/seed2/wt-%s" % pid, wt)
+        cmd = cmd.replace("/tmp/seed/wt-%s" % pid, wt).replace("/tmp/seed2/wt-%s" % pid, wt).replace("/tmp/seed3/wt-%s" % pid, wt)
         if "cd " not in cmd:
             cmd = "cd %s && %s" % (wt, cmd)
         # without the change
@@ -176,6 +176,13 @@ if __name__ == "__main__":
         for pid in sys.argv[3:]:
             try:
                 ingest(pid, "C", srcroot="/tmp/seed2", base=sys.argv[2])
+            except Exception as e:
+                print("INGEST-ERROR", pid, repr(e)[:500])
+    elif sys.argv[1] == "ingestr":
+        # later rounds: seedtool.py ingestr <srcroot> <base-commit> <variant> <Cxx...>
+        for pid in sys.argv[5:]:
+            try:
+                ingest(pid, sys.argv[4], srcroot=sys.argv[2], base=sys.argv[3])
             except Exception as e:
                 print("INGEST-ERROR", pid, repr(e)[:500])
     elif sys.argv[1] == "run":
